@@ -647,3 +647,92 @@ pub fn large_multibyte_file(rng: &mut Rng) -> (Vec<u8>, &'static str) {
     }
     (b, enc)
 }
+
+/// Input aimed at the similar-code-page rejection: ASCII words with bytes that are letters in code page
+/// `b` but symbols / unmapped in a code page `a` that lists `b` as similar (pairs where the relation is
+/// one-sided are preferred), so that one of the two soft-fails while the other passes.
+pub fn similar_rejection_case(rng: &mut Rng) -> Case {
+    use charset_normalizer_rs::verif_hooks as vh;
+    let table = vh::similar_table();
+    let lists = |n: &str| -> Vec<&'static str> { table.iter().find(|(k, _)| *k == n).map(|(_, v)| v.clone()).unwrap_or_default() };
+    let mut pairs: Vec<(&'static str, &'static str)> = vec![];
+    let mut one_sided: Vec<(&'static str, &'static str)> = vec![];
+    for (a, sims) in &table {
+        for b in sims {
+            pairs.push((*a, *b));
+            if !lists(b).contains(a) {
+                one_sided.push((*a, *b));
+            }
+        }
+    }
+    let (a, b) = if !one_sided.is_empty() && rng.chance(1, 2) { *rng.pick(&one_sided) } else { *rng.pick(&pairs) };
+    let dec = |enc: &str, byte: u8| -> Option<char> {
+        charset_normalizer_rs::utils::decode(&[byte], enc, encoding::DecoderTrap::Strict, false, false).ok().and_then(|s| s.chars().next())
+    };
+    // bytes the two pages read differently (letters vs symbols, letters vs combining marks, ...)
+    let mut differing: Vec<u8> = vec![];
+    let mut letters_both: Vec<u8> = vec![];
+    for byte in 0x80u8..=0xff {
+        let (ca, cb) = (dec(a, byte), dec(b, byte));
+        if ca != cb && cb.is_some() {
+            differing.push(byte);
+        }
+        if ca.map_or(false, |c| c.is_alphabetic()) && cb.map_or(false, |c| c.is_alphabetic() || unic_mark(c)) {
+            letters_both.push(byte);
+        }
+    }
+    let words: Vec<&str> = TEXTS[0].1.split(' ').collect();
+    let verdict = |bytes: &[u8], enc: &str, thr: f32| -> bool {
+        let mut s = Sett::default();
+        s.incl = vec![enc.to_string()];
+        s.fb = false;
+        s.pre = false;
+        s.thr = thr;
+        matches!(crate::detect::real_detect(bytes, &s), crate::detect::Outcome::Ok(v) if !v.is_empty())
+    };
+    let mut sett = Sett::default();
+    if rng.chance(1, 2) {
+        sett.fb = false;
+    }
+    if rng.chance(1, 4) {
+        sett.thr = *rng.pick(&[0.1f32, 0.3, 0.15]);
+    }
+    // search (with the implementation's own standalone verdicts) for content that `a` rejects and `b` accepts
+    let mut out: Vec<u8> = vec![];
+    let mut found = false;
+    for _try in 0..200 {
+        let target = rng.range(100, 500);
+        let rate = *rng.pick(&[3usize, 4, 6, 10, 16]);
+        out.clear();
+        while out.len() < target {
+            let w = rng.pick(&words).as_bytes();
+            for (i, ch) in w.iter().enumerate() {
+                out.push(*ch);
+                if i + 1 < w.len() && rng.chance(1, rate) {
+                    if !differing.is_empty() && rng.chance(3, 4) {
+                        out.push(*rng.pick(&differing));
+                    } else if !letters_both.is_empty() {
+                        out.push(*rng.pick(&letters_both));
+                    }
+                }
+            }
+            out.push(b' ');
+        }
+        if !verdict(&out, a, sett.thr) && verdict(&out, b, sett.thr) {
+            // for a one-sided pair: probe just the two (and utf-8), so that `a` is certainly probed itself
+            // rather than skipped because of a third page
+            if one_sided.contains(&(a, b)) {
+                sett.incl = vec![a.to_string(), b.to_string(), "utf-8".to_string()];
+                sett.fb = false; // the converse direction is only observable with the fallback off
+            }
+            found = true;
+            break;
+        }
+    }
+    Case { bytes: out, sett, tag: format!("similar-rejection:{}>{}:{}", a, b, if found { "a-rejects-b-accepts" } else { "unsearched" }) }
+}
+
+/// combining marks count as "letter-like" for the purpose above
+fn unic_mark(c: char) -> bool {
+    matches!(c as u32, 0x0300..=0x036f)
+}
